@@ -1,5 +1,6 @@
 import QP.Model.C15
 import QP.Proofs.C15
+import QP.Proofs.C15Float
 /-!
 # C15 — updating volatile parameters equals re-instantiating with the new values
 
@@ -243,6 +244,27 @@ theorem reports_new_content (new : Assign) (vpos : List (Nat × RepDef)) (cells 
     (hok : TableOK new vpos cells) (j v : Nat) (h : (j, v) ∈ (tableUpdate new vpos cells).2) :
     (tableUpdate new vpos cells).1[j]? = some v :=
   tableUpdate_reported_value new vpos cells hok j v h
+
+/-! ## float-valued counts -/
+
+/-- Spec for float inputs: the count of a float-valued count expression is the integer nearest to its exact
+value — so a quotient like `0.3/0.1 = 2.9999999999999996` (just below) or `0.7/0.1 = 6.999999999999999`,
+`0.6/0.2 = 2.9999999999999996`, or a value just above an integer, all give that integer.  `floatCount` is what
+both the instantiation (`checked_int_cast`) and the update (`VolatileRepetitionCount.__int__`) compute, so the
+updated count equals the freshly instantiated one. -/
+theorem floatCount_nearest (q : Rat) (k : Nat) (h : |q - (k : Rat)| < 1 / 2) : floatCount q = k := by
+  have := roundHalfEven_eq_of_near q (k : Int) (by simpa using h)
+  simp [floatCount, this]
+
+/-- negative float values give the count 0 -/
+theorem floatCount_negative (q : Rat) (k : Nat) (h : |q + (k : Rat)| < 1 / 2) : floatCount q = 0 := by
+  have := roundHalfEven_eq_of_near q (-(k : Int)) (by simpa [sub_neg_eq_add] using h)
+  simp [floatCount, this]
+
+/-- `0.3 / 0.1` in IEEE double arithmetic is 6755399441055743 / 2^51 = 2.9999999999999996: count 3 -/
+example : floatCount (mkRat 6755399441055743 2251799813685248) = 3 := by
+  apply floatCount_nearest
+  rw [abs_lt]; constructor <;> norm_num
 
 /-! ## the hypotheses are satisfiable and necessary -/
 
